@@ -7,7 +7,7 @@ write returns, response readable, Watch dispatches}, any response order, any pla
 PDUs.  The model is tied to conn.go by the regenerated source snapshot (Properties/ConnSource.lean) and by the
 scenario correspondence run (ops `conn …` through a scripted transport).
 -/
-import Smpp.Proofs.ConnInv
+import Smpp.Proofs.ConnProgress
 import Smpp.Properties.ConnSource
 import Smpp.Generated.PduFacts
 import Smpp.Generated.Layouts
@@ -74,12 +74,86 @@ theorem C05_slot (tbl) (hd : Distinct tbl) (hf : Fresh tbl) (s : State) (h : Rea
     (hb : (s.callers i).box = some p) : p.seq = (tbl i).seq :=
   (inv_all tbl hd hf s h).1.boxSeq i p hb
 
-/-- progress, local form: a caller whose response has been put in its slot can take it at once (no further event needed).
-PARTIAL: that every Submit eventually returns under a fair schedule is not mechanised; it is exercised by the scenario run. -/
-theorem C05_take_enabled_partial (s : State) (i : Nat) (p : InPdu) (hw : (s.callers i).pc = .waiting)
+/-- progress, local form: a caller whose response has been put in its slot can take it at once (no further event needed) -/
+theorem C05_take_enabled (s : State) (i : Nat) (p : InPdu) (hw : (s.callers i).pc = .waiting)
     (hb : (s.callers i).box = some p) : ∃ s', step s (.takeResp i) = some s' ∧ (s'.callers i).pc = .leaving (.resp p) := by
   refine ⟨{ s with callers := upd s.callers i { s.callers i with pc := .leaving (.resp p), box := none } }, ?_, by simp [upd]⟩
   simp [step, hw, hb]
+
+/-! ## "every Submit call returns": progress
+
+The environment of C05 (`ReachP`): the peer answers requests — calls that expect a response — each at most once, and
+originates PDUs only under sequence numbers of its own.  Goroutine steps (`Label.internal`) are the steps of callers past
+their start, of Watch, and the transport's Write returning.  The statement is in two halves, which together say that under
+ANY schedule in which enabled goroutine steps are eventually taken, every answered Submit returns its own response:
+
+ 1. `C05_no_livelock`: from any reachable state ANY sequence of goroutine steps is finite, of length at most the measure
+    `mu n s` (n bounding the calls started so far) — so after the last environment event the goroutines come to rest;
+ 2. `C05_returns_own_response`: in EVERY reachable state at rest in which neither context is done and the application is
+    draining, a Submit whose answer the peer has sent HAS RETURNED, and returned exactly its own response;
+    `C05_waits_for_answer`: one whose answer has not been sent yet is waiting with its request at the peer, so that the
+    peer's answer is enabled (nothing else is needed for it to complete). -/
+
+theorem C05_no_livelock (tbl) (hd : Distinct tbl) (hf : Fresh tbl) (n : Nat) (ls : List Label) (s s' : State)
+    (hr : ReachP tbl s) (hb : Bounded n s) (hall : ∀ l ∈ ls, l.internal = true) (hrun : run s ls = some s') :
+    ls.length ≤ mu n s := by
+  have := (internal_run_bound tbl hd hf n ls s s' hr hb hall hrun).1
+  omega
+
+theorem C05_returns_own_response (tbl) (hd : Distinct tbl) (hf : Fresh tbl) (s : State) (hr : ReachP tbl s)
+    (hq : Quiescent s) (i : Nat) (hkind : (tbl i).kind = .submit) (hans : (s.callers i).answered = true)
+    (hconn : s.connDone = false) (hown : (s.callers i).ownDone = false) (hdrain : s.draining = true) :
+    (s.callers i).pc = .done (.resp ⟨(tbl i).seq, .ans i⟩) :=
+  answered_returns tbl hd hf s hr hq i hkind hans hconn hown hdrain
+
+theorem C05_waits_for_answer (tbl) (hd : Distinct tbl) (hf : Fresh tbl) (s : State) (hr : ReachP tbl s)
+    (hq : Quiescent s) (i : Nat) (hkind : (tbl i).kind = .submit) (hstarted : (s.callers i).pc ≠ .idle)
+    (hpos : 0 < (tbl i).seq) (hans : (s.callers i).answered = false)
+    (hconn : s.connDone = false) (hown : (s.callers i).ownDone = false) (hwb : s.writeBroken = false) :
+    (s.callers i).pc = .waiting ∧ (step s (.peerAnswer i)).isSome = true :=
+  unanswered_waits tbl hd hf s hr hq i hkind hstarted hpos hans hconn hown hwb
+
+/-- Watch is never wedged on a response slot that is still full (a second copy of one answer does not exist) -/
+theorem C05_watch_not_wedged (tbl) (hd : Distinct tbl) (hf : Fresh tbl) (s : State) (hr : ReachP tbl s)
+    (k : Nat) (p : InPdu) (hw : s.watch = .delivering k p) : (s.callers k).box = none := by
+  cases hb : (s.callers k).box with
+  | none => rfl
+  | some q => exact absurd hb (fun hb => no_double_delivery tbl hd hf s hr k p q hw hb)
+
+/-! ### non-vacuity of the progress theorems: a table of Submit calls with sequence numbers 1, 2, 3, …; call 0 runs to
+completion and the state reached is at rest, satisfies every premise of `C05_returns_own_response`, and shows its conclusion -/
+
+def tblN : Nat → Caller := fun i => { kind := .submit, seq := (i : Int) + 1, after := none }
+
+theorem tblN_distinct : Distinct tblN := by
+  intro i j hij _ _ h
+  simp [tblN] at h
+  exact hij (by omega)
+
+theorem tblN_fresh : Fresh tblN := by intro i; simp [tblN]
+
+def scriptN : List Label :=
+  [.start 0, .check 0, .write 0, .writeRet 0, .peerAnswer 0, .wPoll, .wRead, .wLookup, .wDeliver, .takeResp 0, .finish 0, .wPoll]
+
+theorem runN : ∃ s, run (init tblN) scriptN = some s ∧ (s.callers 0).pc = .done (.resp (answerOf tblN 0)) ∧
+    (s.callers 0).answered = true ∧ s.connDone = false ∧ s.draining = true ∧ s.watch = .reading ∧ s.inbound = [] ∧
+    s.readSide = .open ∧ (s.callers 0).ownDone = false ∧ (∀ j, j ≠ 0 → (s.callers j).pc = .idle) := by
+  simp [run, scriptN, step, init, tblN, setPc, upd, updI, predDone, answerOf]
+  intro j hj; simp [hj]
+
+example : ∃ s, ReachP tblN s ∧ Quiescent s ∧ (tblN 0).kind = .submit ∧ (s.callers 0).answered = true ∧ s.connDone = false ∧
+    (s.callers 0).ownDone = false ∧ s.draining = true ∧ (s.callers 0).pc = .done (.resp ⟨(tblN 0).seq, .ans 0⟩) := by
+  obtain ⟨s, hrun, hpc, hans, hc, hdr, hw, hin, hrs, hown, hidle⟩ := runN
+  refine ⟨s, ?_, ?_, rfl, hans, hc, hown, hdr, hpc⟩
+  · refine reachP_run tblN scriptN _ s ReachP.init ?_ hrun
+    intro l hl
+    simp [scriptN] at hl
+    rcases hl with rfl | rfl | rfl | rfl | rfl | rfl | rfl | rfl | rfl | rfl | rfl | rfl <;> simp [AdmissibleP, Admissible, tblN]
+  · apply quiescent_of_rest s hw hin hrs
+    intro j
+    by_cases hj : j = 0
+    · subst hj; exact Or.inr ⟨_, hpc⟩
+    · exact Or.inl (hidle j hj)
 
 /-! ## non-vacuity: the schedule the property singles out (response dispatched before the transport's Write returns) -/
 
